@@ -33,7 +33,23 @@ META = {
             "stateless checks themselves (signature, merkle) — run for crashes/throws only; the accepted address wire forms are stated over the C18 address model "
             "(C06_address_accepted_wire_forms; the premise addr_norm_sound is discharged for the concrete normalisation, C06_addr_norm_sound_discharged); containsSplit as "
             "coded is covered "
-            "by Properties_C05 (C05_split_no_oob) and is driven here with structured hostile split descriptors under ASan; steps_linear not proved; "
+            "by Properties_C05 (C05_split_no_oob) and is driven here with structured hostile split descriptors under ASan; "
+            "TIME (Serde/Steps*.v, Stateless/SplitSteps*.v): the decoders are re-run with a step counter (one step per byte delivered by a "
+            "read — a nested slice is paid once per nesting level — and per entered element-loop iteration); the counted run returns "
+            "exactly the result of the uncounted decoder (the counted entity codecs are definitionally those of EntityDefs.v) and "
+            "C06_steps_linear proves steps <= 6|in|+1 (VbkTx), 6|in|+2 (VbkPopTx, ATV), 6|in|+3 (VTB), 7|in|+8 (PopData) for every byte "
+            "string, C06_steps_array_of / C06_steps_count_independent the same for the generic readArrayOf (bound independent of the "
+            "announced count: the loop stops at the first missing element; a count outside [min,max] stops within 9 steps before "
+            "reserve(), C06_steps_count_out_of_range; without the range check 5 bytes buy 2^31 iterations of a zero-size element, "
+            "C06_steps_unchecked_count_refuted). containsSplit as coded: the loop-head position advances 1..3 bytes per iteration "
+            "(C06_split_measure_decreases), the model's fuel is never exhausted and at most max(1,|tx|-4) loop heads are evaluated "
+            "(C06_split_terminates, all inputs), work <= |tx|*(2656+2|data|)/3 for |tx| < 2^32-2^11 (C06_split_steps_bound); the variant "
+            "taking lastPos before the magic repeats its state forever on an 85-byte transaction (C06_split_rewind_to_magic_start_refuted). "
+            "NOT proved: time of the remaining stateless checks (signature, merkle, PoW) and of the external address normalisation "
+            "(bounded by VBK_ADDRESS_SIZE, uncharged); range checks/reserve()/refinement tests are charged 0 steps (fixed number per "
+            "decoder shape resp. per iteration); the step model is a cost semantics of the Coq model, the wall-time of the compiled "
+            "code is only observed by the fuzz timeouts; the split work bound without the |tx| < 2^32-2^11 premise (last-chunk length "
+            "wraps) is not stated; "
             "BFI wire types are covered by the BFI stage of C11 (round trips/sizes), not fuzzed here. Trusted: as C11.",
     "technique": "Coq proof (total parsers with explicit unsafe outcomes) + sanitizer-instrumented differential fuzzing",
 }
